@@ -190,29 +190,74 @@ func c07RefCaps(tokenNS string, policies []string, fullPath string) (update, sud
 // ---------------------------------------------------------------- case description
 
 type c07Role struct {
-	Name           string   `json:"name"`
-	Allowed        []string `json:"allowed_policies,omitempty"`
-	Disallowed     []string `json:"disallowed_policies,omitempty"`
-	AllowedGlob    []string `json:"allowed_policies_glob,omitempty"`
-	DisallowedGlob []string `json:"disallowed_policies_glob,omitempty"`
-	Orphan         bool     `json:"orphan"`
-	Renewable      bool     `json:"renewable"`
-	Period         string   `json:"token_period,omitempty"`
-	ExplicitMax    string   `json:"token_explicit_max_ttl,omitempty"`
-	CIDRs          []string `json:"token_bound_cidrs,omitempty"`
-	Type           string   `json:"token_type,omitempty"`
-	NoDefault      bool     `json:"token_no_default_policy,omitempty"`
-	NumUses        int      `json:"token_num_uses,omitempty"`
-	Aliases        []string `json:"allowed_entity_aliases,omitempty"`
+	Name           string        `json:"name"`
+	Allowed        []string      `json:"allowed_policies,omitempty"`
+	Disallowed     []string      `json:"disallowed_policies,omitempty"`
+	AllowedGlob    []string      `json:"allowed_policies_glob,omitempty"`
+	DisallowedGlob []string      `json:"disallowed_policies_glob,omitempty"`
+	Orphan         bool          `json:"orphan"`
+	Renewable      bool          `json:"renewable"`
+	Period         string        `json:"token_period,omitempty"`
+	ExplicitMax    string        `json:"token_explicit_max_ttl,omitempty"`
+	CIDRs          []string      `json:"token_bound_cidrs,omitempty"`
+	Type           string        `json:"token_type,omitempty"`
+	NoDefault      bool          `json:"token_no_default_policy,omitempty"`
+	NumUses        int           `json:"token_num_uses,omitempty"`
+	Aliases        []string      `json:"allowed_entity_aliases,omitempty"`
+	Shown          *c07RoleLists `json:"lists_as_read_back,omitempty"`
 }
 
-func (ro *c07Role) hasAllowLists() bool { return len(ro.Allowed) > 0 || len(ro.AllowedGlob) > 0 }
-func (ro *c07Role) hasDenyLists() bool  { return len(ro.Disallowed) > 0 || len(ro.DisallowedGlob) > 0 }
+// c07RoleLists: the four policy lists of a role as auth/token/roles/<name> shows them after the write.
+type c07RoleLists struct {
+	Allowed        []string `json:"allowed_policies"`
+	Disallowed     []string `json:"disallowed_policies"`
+	AllowedGlob    []string `json:"allowed_policies_glob"`
+	DisallowedGlob []string `json:"disallowed_policies_glob"`
+}
+
+// The role's configuration is what its read endpoint shows (names are case-insensitive and trimmed, empty names
+// do not exist). What widens (allowed lists) is taken from the read endpoint alone; what restricts (disallowed
+// lists) holds if the entry was written OR is shown: a policy "in the given list" may not be requested,
+// whatever else the list contains.
+func (ro *c07Role) allowedList() []string {
+	if ro.Shown != nil {
+		return c07Norm(ro.Shown.Allowed)
+	}
+	return c07Norm(ro.Allowed)
+}
+
+func (ro *c07Role) allowedGlobs() []string {
+	if ro.Shown != nil {
+		return c07Norm(ro.Shown.AllowedGlob)
+	}
+	return c07Norm(ro.AllowedGlob)
+}
+
+func (ro *c07Role) deniedList() []string {
+	out := append([]string{}, ro.Disallowed...)
+	if ro.Shown != nil {
+		out = append(out, ro.Shown.Disallowed...)
+	}
+	return c07Norm(out)
+}
+
+func (ro *c07Role) deniedGlobs() []string {
+	out := append([]string{}, ro.DisallowedGlob...)
+	if ro.Shown != nil {
+		out = append(out, ro.Shown.DisallowedGlob...)
+	}
+	return c07Norm(out)
+}
+
+func (ro *c07Role) hasAllowLists() bool {
+	return len(ro.allowedList()) > 0 || len(ro.allowedGlobs()) > 0
+}
+func (ro *c07Role) hasDenyLists() bool { return len(ro.deniedList()) > 0 || len(ro.deniedGlobs()) > 0 }
 func (ro *c07Role) denies(p string) bool {
-	return c07Has(c07Norm(ro.Disallowed), p) || c07GlobAny(ro.DisallowedGlob, p)
+	return c07Has(ro.deniedList(), p) || c07GlobAny(ro.deniedGlobs(), p)
 }
 func (ro *c07Role) allows(p string) bool {
-	return c07Has(c07Norm(ro.Allowed), p) || c07GlobAny(ro.AllowedGlob, p)
+	return c07Has(ro.allowedList(), p) || c07GlobAny(ro.allowedGlobs(), p)
 }
 
 type c07Req struct {
@@ -390,7 +435,7 @@ func c07Judge(c *c07Case, v *c07View) []c07Finding {
 			switch {
 			case ro != nil && ro.hasAllowLists():
 				if !ro.allows(x) {
-					add("C07-policy-outside-role-allowed-lists", "policy %q neither in allowed_policies %v nor matched by allowed_policies_glob %v (no sudo)", x, ro.Allowed, ro.AllowedGlob)
+					add("C07-policy-outside-role-allowed-lists", "policy %q neither in allowed_policies %v nor matched by allowed_policies_glob %v as the role shows them (written: %q / %q; no sudo)", x, ro.allowedList(), ro.allowedGlobs(), ro.Allowed, ro.AllowedGlob)
 				}
 			case c.CrossNS:
 				add("C07-cross-namespace-policy-without-sudo", "token in %q created by a token of %q without sudo carries %q", q.NS, p.NS, x)
@@ -417,7 +462,7 @@ func c07Judge(c *c07Case, v *c07View) []c07Finding {
 	if ro != nil {
 		for _, x := range pols {
 			if ro.denies(x) {
-				add("C07-role-disallowed-policy-carried", "policy %q is disallowed by the role (disallowed %v glob %v)", x, ro.Disallowed, ro.DisallowedGlob)
+				add("C07-role-disallowed-policy-granted", "policy %q is disallowed by the role: disallowed_policies %v, disallowed_policies_glob %v (written: %q / %q; sudo=%v)", x, ro.deniedList(), ro.deniedGlobs(), ro.Disallowed, ro.DisallowedGlob, c.Sudo)
 			}
 		}
 	}
@@ -432,7 +477,7 @@ func c07Judge(c *c07Case, v *c07View) []c07Finding {
 		case q.NoDefault:
 			add("C07-default-despite-no-default-policy", "no_default_policy=true but token carries default")
 		case ro != nil && ro.NoDefault:
-			byName := c07Has(req, "default") || (len(req) == 0 && (c07Has(p.TokenPolicies, "default") || c07Has(c07Norm(ro.Allowed), "default")))
+			byName := c07Has(req, "default") || (len(req) == 0 && (c07Has(p.TokenPolicies, "default") || c07Has(ro.allowedList(), "default")))
 			if !byName {
 				add("C07-role-token-no-default-policy-ignored-default-added-automatically", "role has token_no_default_policy=true, default was neither requested %v nor inherited, yet the token carries default (role has allow lists: %v, deny lists: %v, sudo=%v)", q.Policies, ro.hasAllowLists(), ro.hasDenyLists(), c.Sudo)
 			}
@@ -691,7 +736,7 @@ func c07AsksNonExpiringRoot(q *c07Req, crossNS bool) bool {
 	if crossNS && (ro == nil || !ro.hasAllowLists()) {
 		return false
 	}
-	return ro == nil || !ro.hasAllowLists() || c07Has(c07Norm(ro.Allowed), "root")
+	return ro == nil || !ro.hasAllowLists() || c07Has(ro.allowedList(), "root")
 }
 
 // ---------------------------------------------------------------- logins
